@@ -1089,6 +1089,74 @@ def run(ctx):
         else:
             ctx.error(key, "index computation `%s` not recognised" % ast.unparse(rv_[0])[:80])
 
+    # -- R14.7 -------------------------------------------------------------------------------------------
+    ctx.rule("R14.7", "len(), indexing and iteration of the cell / row / column collections range over the same list of elements")
+    from sa import paths as _P147
+
+    ncoll = 0
+    for c in dict.values(tmod.classes):
+        ln, gi, it = c.methods.get("__len__"), c.methods.get("__getitem__"), c.methods.get("__iter__")
+        if ln is None or (gi is None and it is None):
+            continue
+        ncoll += 1
+        key = "%s.__len__" % c.name
+        lval = _P147.value_aliases(ln.node)
+        lens = [_P147.full(r.value.args[0], lval) for r in ast.walk(ln.node) if isinstance(r, ast.Return) and isinstance(r.value, ast.Call)
+                and dotted(r.value.func) == "len" and len(r.value.args) == 1]
+        items = set()
+        if gi is not None:
+            gval = _P147.value_aliases(gi.node)
+            ip = gi.params[1] if len(gi.params) > 1 else None
+            for n in ast.walk(gi.node):
+                if isinstance(n, ast.Subscript) and isinstance(n.ctx, ast.Load) and ip and any(isinstance(x, ast.Name) and x.id == ip for x in ast.walk(n.slice)):
+                    items.add(_P147.full(n.value, gval))
+        if it is not None:
+            ival = _P147.value_aliases(it.node)
+            for n in ast.walk(it.node):
+                if isinstance(n, (ast.For, ast.comprehension)):
+                    src_ = n.iter
+                    while isinstance(src_, ast.Call) and dotted(src_.func) in ("iter", "list", "tuple", "enumerate") and src_.args:
+                        src_ = src_.args[0]
+                    items.add(_P147.full(src_, ival))
+        items = {x for x in items if x.startswith("self.")}
+        if len(lens) != 1 or not items:
+            ctx.error(key, "length / item sources not recognised (len of %s; items from %s)" % (lens, sorted(items)))
+            continue
+        L = lens[0]
+        if L == "self":
+            ctx.ok("R14.7", key, nontrivial=False)
+            continue
+        if all(x == L for x in items):
+            ctx.ok("R14.7", key, sample={"collection": c.name, "list": L})
+            continue
+        other = sorted(x for x in items if x != L)[0]
+        if other.startswith(L + ".") and other[len(L) + 1:].endswith("_lst") and "." not in other[len(L) + 1:]:
+            # the length is taken of the element itself: lxml counts every child element, whatever its tag
+            child = other[len(L) + 1:-4]
+            ini = c.methods.get("__init__")
+            ecls = None
+            for a_ in (ini.node.args.args if ini else []):
+                if a_.annotation is not None and ("self._" + a_.arg == L or "self." + a_.arg == L):
+                    r_ = prog.resolve(c.module, ast.unparse(a_.annotation).strip("'\""))
+                    ecls = r_ if hasattr(r_, "methods") else prog._anywhere("class", ast.unparse(a_.annotation).strip("'\""))
+            extra = None
+            if ecls is not None:
+                decls = [d for d in M.child_decls(ecls)]
+                mine = [d for d in decls if d.prop == child]
+                succ = sorted({s_ for d in mine for s_ in (d.successors or ())})
+                others = sorted({t for d in decls if d.prop != child for t in d.tags} | set(succ))
+                extra = others
+            if extra:
+                ctx.violation("R14.7", key, "%s.__len__ is len(%s), the number of *all* child elements of the element, while items come from `%s`: "
+                              "%s also admits %s (PowerPoint writes a:extLst there), so len() exceeds the number of items and the last indexes "
+                              "raise" % (c.name, L, other, ecls.name, ", ".join(extra)), file=ln.file, line=ln.line)
+            else:
+                ctx.error(key, "len(%s) counts all children of the element while items come from `%s`; whether the element admits other children "
+                          "was not decided" % (L, other))
+        else:
+            ctx.error(key, "length is taken of `%s`, items of `%s`: whether these are the same list is not decided" % (L, other))
+    ctx.count("collections", ncoll)
+
     # -- R14.6 -------------------------------------------------------------------------------------------
     ctx.rule("R14.6", "the emptiness test that lets a merge skip or overwrite a cell's text looks at every kind of paragraph content")
     tb = prog.cls("pptx.oxml.text", "CT_TextBody")
@@ -1102,7 +1170,13 @@ def run(ctx):
         iex = _expand(prog, ie, depth=2, local_only=True)
         FULL = {"text", "content_children"}                      # readers that cover a:r, a:br and a:fld
         PART = {"r_lst": "a:r", "br_lst": "a:br", "fld_lst": "a:fld"}
-        seen_full = {n.attr for n in ast.walk(iex) if isinstance(n, ast.Attribute) and n.attr in FULL and dotted(n.value) != "self"}
+        # names bound to one kind of content (`for r in p.r_lst`): their `.text` is that run's text, not the paragraph's
+        part_vars = set()
+        for n in ast.walk(iex):
+            if isinstance(n, (ast.For, ast.comprehension)) and isinstance(n.iter, ast.Attribute) and n.iter.attr in PART:
+                part_vars |= {x.id for x in ast.walk(n.target) if isinstance(x, ast.Name)}
+        seen_full = {n.attr for n in ast.walk(iex) if isinstance(n, ast.Attribute) and n.attr in FULL and dotted(n.value) != "self"
+                     and not (isinstance(n.value, ast.Name) and n.value.id in part_vars)}
         seen_part = {PART[n.attr] for n in ast.walk(iex) if isinstance(n, ast.Attribute) and n.attr in PART and dotted(n.value) != "self"}
         if seen_full:
             ctx.ok("R14.6", "CT_TextBody.is_empty", sample={"decides_on": sorted(seen_full), "covers": ["a:r", "a:br", "a:fld"]})
